@@ -4,23 +4,30 @@ C01 — both simulation backends compute the state the circuit defines.
 Correspondence: random circuits over the whole op alphabet on mixed emitter/photon/classical registers are compiled by the real
 StabilizerCompiler and DensityMatrixCompiler (subclassed only to snapshot the otherwise-discarded classical record) in all three
 measurement settings; the same op sequence (the implementation's own `sequence()`) is run by the Lean model (`circ.stab`).
-  exact: stabilizer backend tableau, record, outcomes == model's;  DM backend == rho(model tableau) within 1e-9, record equal.
+  exact: stabilizer backend tableau, record, outcomes == model's;  DM backend == rho(model tableau) within 1e-8, record equal;
+  DM backend == the executable exact density-matrix model `compileDM` (driver `noise.run be=dm ns=0`, n_quantum <= 4, forced settings),
+  which Properties/C01.lean proves equal to rho(stabRun) for every circuit (also evaluated here on the compiled model).
 Direct oracle (independent numpy reference of textbook semantics): all registers start in |0>, photons indexed before emitters,
 forced outcomes honoured exactly when possible, a reset leaves the measured qubit in |0>, record = outcomes, backends agree.
 """
 import numpy as np
 
 from harness import tabutil as tu
+from harness import dmutil as du
 from harness.common import Driver, Result, err_class
 
 LEVEL = "proof"
 TRUSTED_BASE = [
     "Lean 4.33 kernel",
     "hand-written model GraphiqModel/Model/{Circuit,Tableau,Pauli}.lean tied to compiler_base.py/stabilizer/compiler.py by this correspondence run",
-    "the density-matrix backend is tied numerically (1e-9) to rho(model state); tensor lifting of Pauli-group semantics to Hilbert space is cited",
+    "density-matrix backend: agreement of its compile loop with the stabilizer compile loop is a theorem (C01 backends_agree, executable_dm_model_agrees) about the exact "
+    "semantics; that the floating-point numpy code computes this semantics is tied numerically (1e-8) per circuit: real DensityMatrixCompiler vs rho(model state) and "
+    "vs the executable exact model Noise.compileDM (n_quantum <= 4, forced settings)",
     "numpy reference simulator (n_quantum <= 6), patched numpy RNG entry points (randint, choice) to script measurement outcomes",
 ]
 ASSUMPTIONS = ["noise-free compilation (noise is C06)", "circuits are built through CircuitDAG.add from valid operations"]
+
+DM_EXEC_MAX_N = 4  # the exact rational density-matrix model is run for n_quantum <= 4 (16x16 matrices over Q[i])
 
 GEN_NAMES = ["Identity", "Hadamard", "Phase", "SigmaX", "SigmaY", "SigmaZ"]
 TOK1 = {"Identity": "I", "Hadamard": "H", "Phase": "P", "SigmaX": "X", "SigmaY": "Y", "SigmaZ": "Z", "PhaseDagger": "PD"}
@@ -150,6 +157,29 @@ def tokens_of(circuit):
     return toks, kinds
 
 
+DM_KIND = {"Identity": "identity", "Hadamard": "h", "Phase": "s", "SigmaX": "x", "SigmaY": "y", "SigmaZ": "z", "PhaseDagger": "sdg",
+           "CX": "cnot", "CZ": "cz", "CCX": "ccnot", "CCZ": "ccz", "MCR": "mcr"}
+
+
+def dm_tokens(kinds):
+    """the circuit as `DMX.trOps` of Proofs/DMCompileExec.lean translates it for the executable density-matrix model
+    (`noise.run be=dm ns=0`): the unwrapped sequence, a wrapper's gates in reversed list order"""
+    toks = []
+    for k in kinds:
+        if k[0] == "W":
+            for g in reversed(k[1]):
+                toks.append(f"{DM_KIND[g]}:{k[2][1]}:{k[2][0]}:0:e:0:N:N")
+        elif k[0] in ("CX", "CZ"):
+            toks.append(f"{DM_KIND[k[0]]}:{k[1][1]}:{k[1][0]}:{k[2][1]}:{k[2][0]}:0:N:N")
+        elif k[0] == "MZ":
+            toks.append(f"measz:{k[1][1]}:{k[1][0]}:0:e:{k[2]}:N:N")
+        elif k[0] in ("CCX", "CCZ", "MCR"):
+            toks.append(f"{DM_KIND[k[0]]}:{k[1][1]}:{k[1][0]}:{k[2][1]}:{k[2][0]}:{k[3]}:N:N")
+        else:
+            toks.append(f"{DM_KIND[k[0]]}:{k[1][1]}:{k[1][0]}:0:e:0:N:N")
+    return ",".join(toks) if toks else "-"
+
+
 def ref_run(kinds, ne, np_, nc, det, bits, rho0=None):
     """textbook semantics on dense matrices; photons first then emitters. returns (rho, record, outcomes, used_bits)"""
     n = ne + np_
@@ -211,6 +241,7 @@ def one_case(ctx, res, drv, rng, SC, DC, ne, np_, nc, length, use_dm, init=False
     n = ne + np_
     init_tab = tu.random_tableau(rng, n) if init else None
     lines, items = [], []
+    dm_lines, dm_items = [], []
     for det in (0, 1, "p"):
         bits = [rng.randrange(2) for _ in range(length + 2)]
         inp = {"ne": ne, "np": np_, "nc": nc, "det": det, "script": "".join(map(str, bits)), "ops": ",".join(toks) or "-",
@@ -257,7 +288,40 @@ def one_case(ctx, res, drv, rng, SC, DC, ne, np_, nc, length, use_dm, init=False
         init_args = (" " + tu.tab_args(init_tab)) if init_tab is not None else ""
         lines.append(f"circ.stab ne={ne} np={np_} nc={nc} det={det} script={inp['script']} ops={inp['ops']}{init_args}")
         items.append((inp, out, n))
-    for rep, (inp, out, n) in zip(drv.batch(lines), items):
+        if use_dm and init_tab is None and det in (0, 1) and n <= DM_EXEC_MAX_N:
+            # the executable exact density-matrix model (`compileDM`, noise off) — proved equal to rho(stabRun) for every
+            # circuit (C01 `executable_dm_model_agrees`); here it is run against the real DensityMatrixCompiler
+            dm_lines.append(f"noise.run be=dm ns=0 ne={ne} np={np_} nc={nc} det={det} ops={dm_tokens(kinds)}")
+            dm_items.append((inp, out, len(items) - 1))
+    stab_reps = drv.batch(lines)
+    for rep, (inp, out, k_item) in zip(drv.batch(dm_lines) if dm_lines else [], dm_items):
+        if rep["_status"] != "ok" or rep.get("nan") == "1":
+            res.exact_break("noise.run[dm,noise off]:error", input=inp, model=rep["_raw"][:200])
+            continue
+        mrho = du.parse_mat(rep).to_complex()
+        mrec_dm = [int(v) for v in rep["rec"].split(",")] if rep["rec"] != "-" else []
+        res.count("sizes", "dm-exec")
+        if "dm" in out and not isinstance(out["dm"][0], str):
+            data, rec, used = out["dm"]
+            if not du.mat_close(np.asarray(data), mrho, 1e-8) or rec != mrec_dm:
+                res.exact_break("compileDM[noise off]", input=inp, impl=f"rec={rec} " + str(np.round(np.asarray(data), 6).tolist())[:300],
+                                model=rep["_raw"][:400])
+            else:
+                res.traces_validated += 1
+        srep = stab_reps[k_item]
+        if srep["_status"] == "ok":
+            # the theorem itself, evaluated on the compiled model: compileDM == rho(stabRun), same record
+            n2 = int(srep["n"])
+            x = tu.unbits(srep["x"], (2 * n2, n2))
+            z = tu.unbits(srep["z"], (2 * n2, n2))
+            r = tu.unbits(srep["r"], (2 * n2,))
+            rho_m = np.eye(2 ** n2, dtype=complex) / 2 ** n2
+            for k in range(n2, 2 * n2):
+                rho_m = rho_m @ (np.eye(2 ** n2) + tu.pauli_matrix(x[k], z[k], r[k], 0))
+            srec = [int(c) for c in srep["rec"]] if srep["rec"] != "-" else []
+            if not du.mat_close(mrho, rho_m, 1e-9) or srec != mrec_dm:
+                res.exact_break("compileDM-vs-rho(stabRun) [theorem executable_dm_model_agrees]", input=inp, model=rep["_raw"][:400])
+    for rep, (inp, out, n) in zip(stab_reps, items):
         if rep["_status"] != "ok":
             res.exact_break("circ.stab:error", input=inp, model=rep["_raw"][:200])
             continue
